@@ -112,9 +112,19 @@ def graphic (b : Nat) : Bool := decide (33 ≤ b ∧ b ≤ 126)
 
 /-! ### Key identifiers, MXC URIs -/
 
+/-- The ASCII characters of `s` are in `set`. (The opaque identifier types below are ASCII sets in
+the specification; the code asks Unicode `char::is_alphanumeric`, so non-ASCII letters and digits
+pass — the required structure only speaks about the ASCII characters.) -/
+def asciiIn (set : Nat → Bool) (s : Str) : Bool := s.all (fun b => decide (128 ≤ b) || set b)
+
+def keyVersionChar (b : Nat) : Bool := alnum b || b == 95
+def base64PadChar (b : Nat) : Bool := alnum b || oneOf "+/=" b
+def secretChar (b : Nat) : Bool := alnum b || oneOf ".=_-" b
+def roomVersionChar (b : Nat) : Bool := alnum b || oneOf ".-" b
+
 def keyNameStruct : Kind → Str → Bool
-  | .keyVersion, n => !n.isEmpty
-  | .keyBase64, n => !n.isEmpty
+  | .keyVersion, n => !n.isEmpty && asciiIn keyVersionChar n
+  | .keyBase64, n => !n.isEmpty && asciiIn base64PadChar n
   | _, _ => true
 
 def keyNameGram : Kind → Str → Bool
@@ -151,11 +161,11 @@ def struct (v6 : Str → Bool) : Kind → Str → Bool
   | .event, s => max255 s && s.head? = some 36
       && (s.all (· != 58) || delimited 36 (fun lp => lp.all (· != 58)) (structServerName v6) s)
   | .mxc, s => mxc (structServerName v6) (fun m => m.all mediaChar) s
-  | .roomVersion, s => !s.isEmpty && decide (codePoints s ≤ 32)
-  | .signingKeyVersion, s => !s.isEmpty
-  | .base64PublicKey, s => !s.isEmpty
-  | .clientSecret, s => !s.isEmpty && max255 s
-  | .sessionId, s => !s.isEmpty && max255 s
+  | .roomVersion, s => nonEmptyAll roomVersionChar s && decide (codePoints s ≤ 32)
+  | .signingKeyVersion, s => !s.isEmpty && asciiIn keyVersionChar s
+  | .base64PublicKey, s => !s.isEmpty && asciiIn base64PadChar s
+  | .clientSecret, s => !s.isEmpty && max255 s && asciiIn secretChar s
+  | .sessionId, s => nonEmptyAll secretChar s && max255 s
   | k, s => cutAt 58 (fun alg => !alg.isEmpty && alg.all (· != 58)) (keyNameStruct k) s
 
 /-- Recommended grammar: every identifier of kind `k` satisfying this must be accepted. -/
